@@ -1,6 +1,7 @@
 package main
 
 import (
+	"strings"
 	"fmt"
 	"math/rand"
 
@@ -80,6 +81,17 @@ func replayC03(w core.Witness) string {
 	re, err := mon.Compile(w.Pattern, w.Options, w.COpts)
 	if err != nil {
 		return "" // not a pattern: nothing to accelerate
+	}
+	if w.InputHex != "" {
+		s2 := unhex(w.InputHex)
+		nm, nerr := re.VerifNaiveFind([]rune(s2), 0, 0)
+		sm, serr := re.FindStringMatch(s2)
+		if nerr == nil && serr == nil {
+			if want, got := mon.ObsAll(nm), mon.ObsAll(sm); want != got {
+				return fmt.Sprintf("FindStringMatch(%q) = %s but attempting the same program at every position of the decoded text gives %s", s2, got, want)
+			}
+		}
+		return ""
 	}
 	d, _, _, _, _ := accelCompare(re, witnessRunes(w), w.Start)
 	return d
@@ -168,6 +180,34 @@ func runC03(r *core.Run) int {
 					w.COpts = copts
 					l.Violate(core.Violation{Kind: "acceleration-changed-result", Detail: detail, Observed: got, Expected: want, Witness: w})
 					return
+				}
+			}
+			// the same text with one or two runes replaced by bytes that are not valid UTF-8 (each byte
+			// decodes to U+FFFD): the raw-string filters work on these bytes, the naive scan on the
+			// decoded runes
+			if len(runes) > 0 && validRunes(runes) && !re.RightToLeft() && rng.Intn(3) == 0 {
+				parts := make([]string, len(runes))
+				for i, c := range runes {
+					parts[i] = string(c)
+				}
+				bad := []string{"\x80", "\x93", "\xbf", "\xff", "\xc3", "\xe4", "\xe4\xb8", "\xf0\x9f"}
+				for k := 1 + rng.Intn(2); k > 0; k-- {
+					parts[rng.Intn(len(parts))] = bad[rng.Intn(len(bad))]
+				}
+				s2 := strings.Join(parts, "")
+				runes2 := []rune(s2)
+				l.Count("inputs_with_invalid_bytes", 1)
+				nm, nerr := re.VerifNaiveFind(runes2, 0, 0)
+				sm, serr := re.FindStringMatch(s2)
+				l.Eval(1)
+				if nerr == nil && serr == nil {
+					if want, got := mon.ObsAll(nm), mon.ObsAll(sm); want != got {
+						w := witnessOf(pc, runes2, 0)
+						w.COpts = copts
+						w.InputHex = fmt.Sprintf("%x", s2)
+						l.Violate(core.Violation{Kind: "acceleration-changed-result", Detail: fmt.Sprintf("FindStringMatch(%q) = %s but attempting the same program at every position of the decoded text gives %s", s2, got, want), Observed: got, Expected: want, Witness: w})
+						return
+					}
 				}
 			}
 			if hit {
